@@ -447,6 +447,8 @@ impl<'a> UserModel<'a> {
                     old_priority: old_cf.priority,
                     new_range,
                     new_rule: Box::new(new_rule),
+                    // the rule keeps the format it already had
+                    new_dxf: None,
                 });
             }
         } else {
@@ -485,6 +487,8 @@ impl<'a> UserModel<'a> {
                     range: new_range,
                     rule: Box::new(new_rule),
                     priority,
+                    // the copy shares the format of the rule it was copied from
+                    dxf: None,
                 });
             }
         }
